@@ -19,6 +19,9 @@ fn steps(id: &str, c: &Value) -> Value {
     let mut native = Sum16BitWords::new();
     let mut s32: u32 = 0;
     let mut s64: u64 = 0;
+    let mut alt_n = [Sum16BitWords::new(), Sum16BitWords::new()];
+    let mut alt_32 = [0u32; 2];
+    let mut alt_64 = [0u64; 2];
     let mut out = vec![];
     for op in ops {
         let name = op[0].as_str().unwrap();
@@ -52,11 +55,25 @@ fn steps(id: &str, c: &Value) -> Value {
                 s64 = u64_16bit_word::add_slice(s64, &b);
             }
         }
+        // the same additions with every slice placed at an ODD address and at an address that is 4 mod 8 (a sum must not depend on
+        // where its bytes are located): separate accumulators, fed only through add_slice
+        for (k, off) in [(0usize, 1usize), (1, 4)] {
+            let mut buf = vec![0xEEu8; b.len() + 16];
+            let base = buf.as_ptr() as usize;
+            let start = (8 - base % 8) % 8 + off;
+            buf[start..start + b.len()].copy_from_slice(&b);
+            alt_n[k] = alt_n[k].clone().add_slice(&buf[start..start + b.len()]);
+            alt_32[k] = u32_16bit_word::add_slice(alt_32[k], &buf[start..start + b.len()]);
+            alt_64[k] = u64_16bit_word::add_slice(alt_64[k], &buf[start..start + b.len()]);
+        }
+        let moved = (0..2).all(|k| alt_n[k].ones_complement() == native.ones_complement() && u32_16bit_word::ones_complement(alt_32[k]) == u32_16bit_word::ones_complement(s32)
+                               && u64_16bit_word::ones_complement(alt_64[k]) == u64_16bit_word::ones_complement(s64));
         // what the callers transmit: ones_complement().to_be()
         out.push(json!({"op": name, "bytes": b,
             "native": native.ones_complement().to_be(), "native_nz": native.to_ones_complement_with_no_zero().to_be(),
             "u32": u32_16bit_word::ones_complement(s32).to_be(), "u32_nz": u32_16bit_word::ones_complement_with_no_zero(s32).to_be(),
-            "u64": u64_16bit_word::ones_complement(s64).to_be(), "u64_nz": u64_16bit_word::ones_complement_with_no_zero(s64).to_be()}));
+            "u64": u64_16bit_word::ones_complement(s64).to_be(), "u64_nz": u64_16bit_word::ones_complement_with_no_zero(s64).to_be(),
+            "moved": if moved { 1 } else { 0 }}));
     }
     json!({"ev": "cks_steps", "id": id, "steps": out})
 }
